@@ -362,14 +362,19 @@ def build():
     PARSE_X = dict(PXB)
     PARSE_X['DescriptorTag'] = dict(params={'t': 'Seq[int]'}, returns='DescriptorTag', ensures=['ISTAG(t)'], raises={'ValueError': {'ensures': ['not ISTAG(t)']}}, modifies=[])
     PARSE_X['_parse_descriptor'] = dict(params={'tag': 'DescriptorTag', 'desc': 'Bin', 'ctx': 'PCtx'}, returns='Obj', modifies=[], raises={'ProtocolError': {}, 'NotImplementedError': {}, 'IndexError': {}, 'InternalServerError': {}})
-    w.contract(SER, '_parse', params={'desc': 'Bin', 'ctx': 'PCtx'}, returns='none', ghost={'g_t': 'Seq[int]'}, modifies=['PCtx.codecs_list'],
-        ghost_after={'t = desc.read_bytes(1)': [('g_t', 't')]},
+    w.contract(SER, '_parse', params={'desc': 'Bin', 'ctx': 'PCtx'}, returns='none', ghost={'g_t': 'Seq[int]', 'g_len': 'bool'}, requires=['not g_len'], modifies=['PCtx.codecs_list'],
+        ghost_after={'t = desc.read_bytes(1)': [('g_t', 't')], 'desc.read_bytes(4)': [('g_len', 'True')]},
         ensures=['len(g_t) == 1',
+                 # the 4-byte record length is consumed exactly for protocol >= 2.0 (the stream position itself is not modelled)
+                 'g_len == (ctx.protocol_version >= (2, 0))',
                  'implies(ISTAG(g_t), len(ctx.codecs_list) == len(old(ctx.codecs_list)) + 1)',
                  'implies(not ISTAG(g_t), g_t[0] >= 128 and len(ctx.codecs_list) == len(old(ctx.codecs_list)))',
                  'forall(0, len(old(ctx.codecs_list)), lambda k: ctx.codecs_list[k] == old(ctx.codecs_list)[k])'],
-        raises={'NotImplementedError': {}, 'ProtocolError': {}, 'IndexError': {}, 'InternalServerError': {}},
-        hints={'ext_funcs': PARSE_X, 'ghost_out': ['g_t']})
+        # refused: only a record whose tag byte is neither a descriptor tag nor in the annotation range 0x80..0xff (or a descriptor kind its decoder refuses);
+        # a dangling back reference (IndexError) can only come from a descriptor's decoder
+        raises={'NotImplementedError': {'ensures': ['len(g_t) == 1 and (ISTAG(g_t) or g_t[0] < 128)']}, 'ProtocolError': {'ensures': ['ISTAG(g_t)']},
+                'IndexError': {'ensures': ['ISTAG(g_t)']}, 'InternalServerError': {}},
+        hints={'ext_funcs': PARSE_X, 'ghost_out': ['g_t', 'g_len']})
     # the remaining straight-line decoders: each own field of the result is the value read for it (ghost capture at the read), ancestors only for protocol >= 2.0
     ANC = ['implies(ctx.protocol_version >= (2, 0), result.ancestors is not None and result.ancestors == g_anc)', 'implies(not (ctx.protocol_version >= (2, 0)), result.ancestors is None)']
     GA_ANC = {'ancestors = _parse_type_refs(desc, ctx=ctx)': [('g_anc', 'ancestors')]}
